@@ -76,6 +76,17 @@ def body_fwd():
     return _r(ag.deriv(lambda x: x * ag.deriv(lambda y: x * y * y)(x))(2.0))
 
 
+def body_fwd_t():        # forward mode with a non-unit tangent (a tangent stored anywhere shared would be visible)
+    L = lib()
+    return _r(L["ag"].make_jvp(lambda y: y ** 3)(L["onp"].array([1.5, -0.5]))(L["onp"].array([2.0, -3.0]))[1])
+
+
+def body_fwdrev_t():
+    L = lib()
+    np = L["np"]
+    return _r(L["ag"].make_jvp(L["ag"].grad(lambda x: np.sum(np.sin(x) * x)))(L["onp"].array([0.3, 0.9]))(L["onp"].array([0.5, 4.0]))[1])
+
+
 _SHARED = {}
 
 
@@ -113,7 +124,7 @@ def body_sharedvg_b():
     return _r(shared()["vg"](7.0, 3.0))
 
 
-BODIES = dict(jacobian2=body_jacobian2, hessian=body_hessian, shared_a=body_shared_a, shared_b=body_shared_b, sharedj_a=body_sharedj_a, sharedj_b=body_sharedj_b,
+BODIES = dict(fwd_t=body_fwd_t, fwdrev_t=body_fwdrev_t, jacobian2=body_jacobian2, hessian=body_hessian, shared_a=body_shared_a, shared_b=body_shared_b, sharedj_a=body_sharedj_a, sharedj_b=body_sharedj_b,
               sharedvg_a=body_sharedvg_a, sharedvg_b=body_sharedvg_b, simple=body_simple, nested=body_nested, closure=body_closure, fwdrev=body_fwdrev,
               jacobian=body_jacobian, depth3=body_depth3, fwd=body_fwd)
 ORDER = ["simple", "nested", "closure", "fwdrev", "fwd", "jacobian", "depth3"]
@@ -126,7 +137,7 @@ def combos(quick):
         out.append((a, b))
     out += [("closure", "jacobian"), ("nested", "depth3"), ("closure", "depth3")]
     out += [("shared_a", "shared_b"), ("sharedj_a", "sharedj_b"), ("sharedvg_a", "sharedvg_b"), ("shared_a", "sharedj_b")]
-    out += [("jacobian", "jacobian2"), ("hessian", "jacobian2"), ("fwd", "fwdrev")]
+    out += [("jacobian", "jacobian2"), ("hessian", "jacobian2"), ("fwd", "fwdrev"), ("fwdrev_t", "fwd_t"), ("fwd_t", "fwd")]
     if not quick:
         out += [("jacobian", "jacobian"), ("depth3", "depth3"), ("fwdrev", "depth3")]
     out = list(dict.fromkeys(out))
@@ -162,6 +173,7 @@ def _job(args):
         if a != b:
             raise HarnessError("solo run of %s not deterministic: %r vs %r" % (nm, a, b))
         solo[nm] = a
+    view.restore(snap)      # the explorations start from the pristine library state, not from the one the solo runs left
     expect = {i: solo[n] for i, n in enumerate(names)}
     bodies = [BODIES[n] for n in names]
 
